@@ -175,8 +175,14 @@ class RegexCompiler:
                 (0xFEFF, 0xFEFF),
             ]
         elif ch == "S":
-            # Non-whitespace - simplified
-            return [(ord("!"), ord("~"))]  # Printable ASCII
+            # Non-whitespace: the complement of \s
+            ranges, nxt = [], 0
+            for start, end in sorted(self._expand_shorthand("s")):
+                if start > nxt:
+                    ranges.append((nxt, start - 1))
+                nxt = end + 1
+            ranges.append((nxt, 0x10FFFF))
+            return ranges
         else:
             raise RegExpError(f"Unknown shorthand: \\{ch}")
 
